@@ -2,6 +2,7 @@ import RoaringModel.Lemmas.BitmapOps
 import RoaringModel.Lemmas.BitmapSearchOps
 import RoaringModel.Lemmas.BitmapOrAssign
 import RoaringModel.Lemmas.BitmapAndAssign
+import RoaringModel.Lemmas.Canonical
 /-!
 # C02 — 32-bit set algebra is exactly union / intersection / difference / symmetric difference
 
@@ -9,8 +10,9 @@ Statement shape (DESIGN §8): for well-formed operands the result is well-formed
 *is* the SPEC operation on the operands' element lists (`Spec.sOr / sAnd / sSub / sXor`, whose membership
 laws are `Spec.mem_sOr` … in `Lemmas/AlgebraSpec.lean`).
 
-Proved here, for all well-formed `a b`, **for all 4 operators × 6 forms** (`C02_<op>_<form>_partial`,
-form ∈ {oo, or, ro, rr, ao, ar}), each mirroring its own code path:
+Proved here, for all well-formed `a b` (`Bitmap.WF`, `Inv.lean`), **for all 4 operators × 6 forms**
+(`C02_<op>_<form>`, form ∈ {oo, or, ro, rr, ao, ar}; `C02_all_forms` for all at once), unconditionally, each
+mirroring its own code path:
 * `&a op &b` — the four `Pairs` merge-join loops; `a ^= b`, `a ^= &b` — two more `Pairs` loops;
 * `a &= &b`, `a -= &b` — `retain_mut` + `binary_search_by_key`, shown to visit the same chunk pairs;
 * `a &= b` — operand swap on `containers.len()`, matched rhs chunk moved out (`mem::replace`);
@@ -18,13 +20,12 @@ form ∈ {oo, or, ro, rr, ao, ar}), each mirroring its own code path:
 * the wrappers, delegating exactly as ops.rs does (including the exchanged operands of `&a | b`, `&a & b`,
   `&a ^ b`, for which commutativity of the SPEC operation is proved);
 down to the per-kind store dispatch, the scalar merges, the in-place `retain` forms with the galloping
-index, and `ensure_correct_store`.  `C02_<op>_forms_agree_partial`: all six forms of one operator have
-the same elements (and are all well-formed, so structurally equal by C04's canonical-form theorem).
+index, and `ensure_correct_store`.  `C02_forms_agree` (and `C02_<op>_forms_agree`): all six forms of one
+operator return *structurally equal* values (`Bitmap.canonical`, `Lemmas/Canonical.lean`).
 
-Every theorem is `_partial` for one reason only: the bitset-level kernel facts (`op_bitmaps`, the per-bit
-array folds, `to_array_store` / `to_bitmap_store`) are taken as the *named hypothesis* `K : BKernel`
-(`Lemmas/StoreOps.lean`); they are proved by the core proof library in parallel and discharge `K`
-mechanically once merged.
+The family's lemma library is parametrised by the bitset-kernel record `K : BKernel`
+(`Lemmas/StoreOps.lean`); it is inhabited by `bKernel` (every field is the core-library theorem of the same
+name, `Lemmas/BStoreBasic.lean` / `BStoreRange.lean`), so nothing here is conditional.
 
 "Borrowed operands are left unchanged" is not a theorem of a functional model (DESIGN §8 C02).
 -/
@@ -35,222 +36,192 @@ open Roaring Roaring.Bitmap
 def Exact (op : Bitmap → Bitmap → Bitmap) (sop : List Nat → List Nat → List Nat) : Prop :=
   ∀ a b : Bitmap, a.WF → b.WF → (op a b).WF ∧ elems (op a b) = sop (elems a) (elems b)
 
-theorem C02_or_rr_partial (K : BKernel) : Exact orRR Spec.sOr := by
+theorem C02_or_rr : Exact orRR Spec.sOr := by
   intro a b ha hb
   rw [orRR_eq]
-  exact pairsOp_elems_eq K (pairSpec_or K) a b ha hb _
-    (Spec.sorted_sOr _ _ (sorted_elems K a ha) (sorted_elems K b hb)) (fun y => Spec.mem_sOr _ _ y)
+  exact pairsOp_elems_eq bKernel (pairSpec_or bKernel) a b ha hb _
+    (Spec.sorted_sOr _ _ (sorted_elemsK bKernel a ha) (sorted_elemsK bKernel b hb)) (fun y => Spec.mem_sOr _ _ y)
 
-theorem C02_and_rr_partial (K : BKernel) : Exact andRR Spec.sAnd := by
+theorem C02_and_rr : Exact andRR Spec.sAnd := by
   intro a b ha hb
   rw [andRR_eq]
-  exact pairsOp_elems_eq K (pairSpec_and K) a b ha hb _
-    (Spec.sorted_sAnd _ _ (sorted_elems K a ha) (sorted_elems K b hb))
-    (fun y => Spec.mem_sAnd _ _ (sorted_elems K a ha) (sorted_elems K b hb) y)
+  exact pairsOp_elems_eq bKernel (pairSpec_and bKernel) a b ha hb _
+    (Spec.sorted_sAnd _ _ (sorted_elemsK bKernel a ha) (sorted_elemsK bKernel b hb))
+    (fun y => Spec.mem_sAnd _ _ (sorted_elemsK bKernel a ha) (sorted_elemsK bKernel b hb) y)
 
-theorem C02_sub_rr_partial (K : BKernel) : Exact subRR Spec.sSub := by
+theorem C02_sub_rr : Exact subRR Spec.sSub := by
   intro a b ha hb
   rw [subRR_eq]
-  exact pairsOp_elems_eq K (pairSpec_sub K) a b ha hb _
-    (Spec.sorted_sSub _ _ (sorted_elems K a ha) (sorted_elems K b hb))
-    (fun y => Spec.mem_sSub _ _ (sorted_elems K a ha) (sorted_elems K b hb) y)
+  exact pairsOp_elems_eq bKernel (pairSpec_sub bKernel) a b ha hb _
+    (Spec.sorted_sSub _ _ (sorted_elemsK bKernel a ha) (sorted_elemsK bKernel b hb))
+    (fun y => Spec.mem_sSub _ _ (sorted_elemsK bKernel a ha) (sorted_elemsK bKernel b hb) y)
 
 /-- `&a - b` delegates to `&a - &b` (ops.rs:295). -/
-theorem C02_sub_ro_partial (K : BKernel) : Exact subRO Spec.sSub := C02_sub_rr_partial K
+theorem C02_sub_ro : Exact subRO Spec.sSub := C02_sub_rr
 
-theorem C02_xorWith_partial (K : BKernel) (f : Container → Container → Container) (op : Store → Store → Store)
+theorem C02_xorWith (f : Container → Container → Container) (op : Store → Store → Store)
     (hf : ∀ l r : Container, f l r = Container.ensureCorrectStore { key := l.key, store := op l.store r.store })
     (hop : Store.OpSpec Store.PXor op) : Exact (xorWith f) Spec.sXor := by
   intro a b ha hb
   rw [xorWith_eq]
-  exact pairsOp_elems_eq K (pairSpec_xor K f op hf hop) a b ha hb _
-    (Spec.sorted_sXor _ _ (sorted_elems K a ha) (sorted_elems K b hb))
-    (fun y => Spec.mem_sXor _ _ (sorted_elems K a ha) (sorted_elems K b hb) y)
+  exact pairsOp_elems_eq bKernel (pairSpec_xor bKernel f op hf hop) a b ha hb _
+    (Spec.sorted_sXor _ _ (sorted_elemsK bKernel a ha) (sorted_elemsK bKernel b hb))
+    (fun y => Spec.mem_sXor _ _ (sorted_elemsK bKernel a ha) (sorted_elemsK bKernel b hb) y)
 
-theorem C02_xor_rr_partial (K : BKernel) : Exact xorRR Spec.sXor :=
-  C02_xorWith_partial K _ _ (fun _ _ => rfl) (Store.xorRef_spec K)
-theorem C02_xor_ao_partial (K : BKernel) : Exact xorAO Spec.sXor :=
-  C02_xorWith_partial K _ _ (fun _ _ => rfl) (Store.xorAssignOwned_spec K)
-theorem C02_xor_ar_partial (K : BKernel) : Exact xorAR Spec.sXor :=
-  C02_xorWith_partial K _ _ (fun _ _ => rfl) (Store.xorAssignRef_spec K)
+theorem C02_xor_rr : Exact xorRR Spec.sXor :=
+  C02_xorWith _ _ (fun _ _ => rfl) (Store.xorRef_spec bKernel)
+theorem C02_xor_ao : Exact xorAO Spec.sXor :=
+  C02_xorWith _ _ (fun _ _ => rfl) (Store.xorAssignOwned_spec bKernel)
+theorem C02_xor_ar : Exact xorAR Spec.sXor :=
+  C02_xorWith _ _ (fun _ _ => rfl) (Store.xorAssignRef_spec bKernel)
 /-- `a ^ b` is `a ^= b`, `a ^ &b` is `a ^= &b` (ops.rs:351-369). -/
-theorem C02_xor_oo_partial (K : BKernel) : Exact xorOO Spec.sXor := C02_xor_ao_partial K
-theorem C02_xor_or_partial (K : BKernel) : Exact xorOR Spec.sXor := C02_xor_ar_partial K
+theorem C02_xor_oo : Exact xorOO Spec.sXor := C02_xor_ao
+theorem C02_xor_or : Exact xorOR Spec.sXor := C02_xor_ar
 
 /-- symmetric difference is symmetric (needed because `&a ^ b` is computed as `b ^= &a`) -/
 theorem C02_sXor_comm (l r : List Nat) (hl : Sorted l) (hr : Sorted r) : Spec.sXor l r = Spec.sXor r l := by
-  apply sorted_ext_local _ _ (Spec.sorted_sXor l r hl hr) (Spec.sorted_sXor r l hr hl)
+  apply Arr.sorted_ext _ _ (Spec.sorted_sXor l r hl hr) (Spec.sorted_sXor r l hr hl)
   intro x; rw [Spec.mem_sXor l r hl hr, Spec.mem_sXor r l hr hl]
   constructor <;> (intro h; rcases h with h | h) <;> simp [h.1, h.2]
 
 /-- `&a ^ b` = `BitXor::bitxor(rhs, self)` (ops.rs:371): the operands are exchanged. -/
-theorem C02_xor_ro_partial (K : BKernel) : Exact xorRO Spec.sXor := by
+theorem C02_xor_ro : Exact xorRO Spec.sXor := by
   intro a b ha hb
-  have := C02_xor_ar_partial K b a hb ha
-  exact ⟨this.1, by rw [C02_sXor_comm _ _ (sorted_elems K a ha) (sorted_elems K b hb)]; exact this.2⟩
-
-/-- All six forms of `^` return structurally equal values (canonical form is not even needed: the same
-    element list and well-formedness pin the value down only up to C04's canonical-form theorem, so the
-    agreement is stated on the element lists). -/
-theorem C02_xor_forms_agree_partial (K : BKernel) (a b : Bitmap) (ha : a.WF) (hb : b.WF) (fm : Form) :
-    elems (binop .xor fm a b) = elems (xorRR a b) := by
-  have h0 := (C02_xor_rr_partial K a b ha hb).2
-  cases fm
-  · exact (C02_xor_oo_partial K a b ha hb).2.trans h0.symm
-  · exact (C02_xor_or_partial K a b ha hb).2.trans h0.symm
-  · exact (C02_xor_ro_partial K a b ha hb).2.trans h0.symm
-  · rfl
-  · exact (C02_xor_ao_partial K a b ha hb).2.trans h0.symm
-  · exact (C02_xor_ar_partial K a b ha hb).2.trans h0.symm
+  have := C02_xor_ar b a hb ha
+  exact ⟨this.1, by rw [C02_sXor_comm _ _ (sorted_elemsK bKernel a ha) (sorted_elemsK bKernel b hb)]; exact this.2⟩
 
 /-! ### the search-based loops -/
 
-theorem C02_and_ar_partial (K : BKernel) : Exact andAR Spec.sAnd := by
+theorem C02_and_ar : Exact andAR Spec.sAnd := by
   intro a b ha hb
   rw [andAR_eq, searchOp_eq_pairsOp _ _ _ a b ha hb]
-  exact pairsOp_elems_eq K (pairSpec_andAR K) a b ha hb _
-    (Spec.sorted_sAnd _ _ (sorted_elems K a ha) (sorted_elems K b hb))
-    (fun y => Spec.mem_sAnd _ _ (sorted_elems K a ha) (sorted_elems K b hb) y)
+  exact pairsOp_elems_eq bKernel (pairSpec_andAR bKernel) a b ha hb _
+    (Spec.sorted_sAnd _ _ (sorted_elemsK bKernel a ha) (sorted_elemsK bKernel b hb))
+    (fun y => Spec.mem_sAnd _ _ (sorted_elemsK bKernel a ha) (sorted_elemsK bKernel b hb) y)
 
 /-- `a & &b` is `a &= &b` (ops.rs:197). -/
-theorem C02_and_or_partial (K : BKernel) : Exact andOR Spec.sAnd := C02_and_ar_partial K
+theorem C02_and_or : Exact andOR Spec.sAnd := C02_and_ar
 
 theorem C02_sAnd_comm (l r : List Nat) (hl : Sorted l) (hr : Sorted r) : Spec.sAnd l r = Spec.sAnd r l := by
-  apply sorted_ext_local _ _ (Spec.sorted_sAnd l r hl hr) (Spec.sorted_sAnd r l hr hl)
+  apply Arr.sorted_ext _ _ (Spec.sorted_sAnd l r hl hr) (Spec.sorted_sAnd r l hr hl)
   intro x; rw [Spec.mem_sAnd l r hl hr, Spec.mem_sAnd r l hr hl]; exact And.comm
 
 /-- `&a & b` = `BitAnd::bitand(rhs, self)` (ops.rs:207): the operands are exchanged. -/
-theorem C02_and_ro_partial (K : BKernel) : Exact andRO Spec.sAnd := by
+theorem C02_and_ro : Exact andRO Spec.sAnd := by
   intro a b ha hb
-  have := C02_and_ar_partial K b a hb ha
-  exact ⟨this.1, by rw [C02_sAnd_comm _ _ (sorted_elems K a ha) (sorted_elems K b hb)]; exact this.2⟩
+  have := C02_and_ar b a hb ha
+  exact ⟨this.1, by rw [C02_sAnd_comm _ _ (sorted_elemsK bKernel a ha) (sorted_elemsK bKernel b hb)]; exact this.2⟩
 
-theorem C02_sub_ar_partial (K : BKernel) : Exact subAR Spec.sSub := by
+theorem C02_sub_ar : Exact subAR Spec.sSub := by
   intro a b ha hb
   rw [subAR_eq, searchOp_eq_pairsOp _ _ _ a b ha hb]
-  exact pairsOp_elems_eq K (pairSpec_subAR K) a b ha hb _
-    (Spec.sorted_sSub _ _ (sorted_elems K a ha) (sorted_elems K b hb))
-    (fun y => Spec.mem_sSub _ _ (sorted_elems K a ha) (sorted_elems K b hb) y)
+  exact pairsOp_elems_eq bKernel (pairSpec_subAR bKernel) a b ha hb _
+    (Spec.sorted_sSub _ _ (sorted_elemsK bKernel a ha) (sorted_elemsK bKernel b hb))
+    (fun y => Spec.mem_sSub _ _ (sorted_elemsK bKernel a ha) (sorted_elemsK bKernel b hb) y)
 
 /-- `a -= b`, `a - b`, `a - &b` all are `a -= &b` (ops.rs:275-334). -/
-theorem C02_sub_ao_partial (K : BKernel) : Exact subAO Spec.sSub := C02_sub_ar_partial K
-theorem C02_sub_oo_partial (K : BKernel) : Exact subOO Spec.sSub := C02_sub_ar_partial K
-theorem C02_sub_or_partial (K : BKernel) : Exact subOR Spec.sSub := C02_sub_ar_partial K
-
-/-- All six forms of `-` agree (on the element lists; structural equality then follows from C04's
-    canonical-form theorem since every result is well-formed). -/
-theorem C02_sub_forms_agree_partial (K : BKernel) (a b : Bitmap) (ha : a.WF) (hb : b.WF) (fm : Form) :
-    elems (binop .sub fm a b) = elems (subRR a b) := by
-  have h0 := (C02_sub_rr_partial K a b ha hb).2
-  cases fm
-  · exact (C02_sub_oo_partial K a b ha hb).2.trans h0.symm
-  · exact (C02_sub_or_partial K a b ha hb).2.trans h0.symm
-  · rfl
-  · rfl
-  · exact (C02_sub_ao_partial K a b ha hb).2.trans h0.symm
-  · exact (C02_sub_ar_partial K a b ha hb).2.trans h0.symm
+theorem C02_sub_ao : Exact subAO Spec.sSub := C02_sub_ar
+theorem C02_sub_oo : Exact subOO Spec.sSub := C02_sub_ar
+theorem C02_sub_or : Exact subOR Spec.sSub := C02_sub_ar
 
 /-- `a &= b` (owned): whichever way the `containers.len()`-based operand swap goes -/
-theorem C02_and_ao_partial (K : BKernel) : Exact andAO Spec.sAnd := by
+theorem C02_and_ao : Exact andAO Spec.sAnd := by
   intro a b ha hb
-  have hsa := sorted_elems K a ha
-  have hsb := sorted_elems K b hb
+  have hsa := sorted_elemsK bKernel a ha
+  have hsb := sorted_elemsK bKernel b hb
   rw [andAO_eq a b ha hb]
   split
-  · have := pairsOp_elems_eq K (pairSpec_andAO K) b a hb ha _ (Spec.sorted_sAnd _ _ hsb hsa)
+  · have := pairsOp_elems_eq bKernel (pairSpec_andAO bKernel) b a hb ha _ (Spec.sorted_sAnd _ _ hsb hsa)
       (fun y => Spec.mem_sAnd _ _ hsb hsa y)
     exact ⟨this.1, by rw [C02_sAnd_comm _ _ hsa hsb]; exact this.2⟩
-  · exact pairsOp_elems_eq K (pairSpec_andAO K) a b ha hb _ (Spec.sorted_sAnd _ _ hsa hsb)
+  · exact pairsOp_elems_eq bKernel (pairSpec_andAO bKernel) a b ha hb _ (Spec.sorted_sAnd _ _ hsa hsb)
       (fun y => Spec.mem_sAnd _ _ hsa hsb y)
 
 /-- `a & b` is `a &= b` (ops.rs:187). -/
-theorem C02_and_oo_partial (K : BKernel) : Exact andOO Spec.sAnd := C02_and_ao_partial K
-
-theorem C02_and_forms_agree_partial (K : BKernel) (a b : Bitmap) (ha : a.WF) (hb : b.WF) (fm : Form) :
-    elems (binop .and fm a b) = elems (andRR a b) := by
-  have h0 := (C02_and_rr_partial K a b ha hb).2
-  cases fm
-  · exact (C02_and_oo_partial K a b ha hb).2.trans h0.symm
-  · exact (C02_and_or_partial K a b ha hb).2.trans h0.symm
-  · exact (C02_and_ro_partial K a b ha hb).2.trans h0.symm
-  · rfl
-  · exact (C02_and_ao_partial K a b ha hb).2.trans h0.symm
-  · exact (C02_and_ar_partial K a b ha hb).2.trans h0.symm
+theorem C02_and_oo : Exact andOO Spec.sAnd := C02_and_ao
 
 /-! ### the insert-or-merge loops of `|=` -/
 
 theorem C02_sOr_comm (l r : List Nat) (hl : Sorted l) (hr : Sorted r) : Spec.sOr l r = Spec.sOr r l := by
-  apply sorted_ext_local _ _ (Spec.sorted_sOr l r hl hr) (Spec.sorted_sOr r l hr hl)
+  apply Arr.sorted_ext _ _ (Spec.sorted_sOr l r hl hr) (Spec.sorted_sOr r l hr hl)
   intro x; rw [Spec.mem_sOr, Spec.mem_sOr]; exact Or.comm
 
-theorem C02_or_ar_partial (K : BKernel) : Exact orAR Spec.sOr := by
+theorem C02_or_ar : Exact orAR Spec.sOr := by
   intro a b ha hb
   rw [orAR_eq_pairsOp a b ha hb]
-  exact pairsOp_elems_eq K (pairSpec_orAR K) a b ha hb _
-    (Spec.sorted_sOr _ _ (sorted_elems K a ha) (sorted_elems K b hb)) (fun y => Spec.mem_sOr _ _ y)
+  exact pairsOp_elems_eq bKernel (pairSpec_orAR bKernel) a b ha hb _
+    (Spec.sorted_sOr _ _ (sorted_elemsK bKernel a ha) (sorted_elemsK bKernel b hb)) (fun y => Spec.mem_sOr _ _ y)
 
 /-- `a |= b` (owned): whichever way the `len()`-based operand swap goes, the result is the union -/
-theorem C02_or_ao_partial (K : BKernel) : Exact orAO Spec.sOr := by
+theorem C02_or_ao : Exact orAO Spec.sOr := by
   intro a b ha hb
   rw [orAO_eq_pairsOp a b ha hb]
   split
-  · have := pairsOp_elems_eq K (pairSpec_orAO K) b a hb ha _
-      (Spec.sorted_sOr _ _ (sorted_elems K b hb) (sorted_elems K a ha)) (fun y => Spec.mem_sOr _ _ y)
-    exact ⟨this.1, by rw [C02_sOr_comm _ _ (sorted_elems K a ha) (sorted_elems K b hb)]; exact this.2⟩
-  · exact pairsOp_elems_eq K (pairSpec_orAO K) a b ha hb _
-      (Spec.sorted_sOr _ _ (sorted_elems K a ha) (sorted_elems K b hb)) (fun y => Spec.mem_sOr _ _ y)
+  · have := pairsOp_elems_eq bKernel (pairSpec_orAO bKernel) b a hb ha _
+      (Spec.sorted_sOr _ _ (sorted_elemsK bKernel b hb) (sorted_elemsK bKernel a ha)) (fun y => Spec.mem_sOr _ _ y)
+    exact ⟨this.1, by rw [C02_sOr_comm _ _ (sorted_elemsK bKernel a ha) (sorted_elemsK bKernel b hb)]; exact this.2⟩
+  · exact pairsOp_elems_eq bKernel (pairSpec_orAO bKernel) a b ha hb _
+      (Spec.sorted_sOr _ _ (sorted_elemsK bKernel a ha) (sorted_elemsK bKernel b hb)) (fun y => Spec.mem_sOr _ _ y)
 
 /-- `a | b` is `a |= b`, `a | &b` is `a |= &b` (ops.rs:107-125). -/
-theorem C02_or_oo_partial (K : BKernel) : Exact orOO Spec.sOr := C02_or_ao_partial K
-theorem C02_or_or_partial (K : BKernel) : Exact orOR Spec.sOr := C02_or_ar_partial K
+theorem C02_or_oo : Exact orOO Spec.sOr := C02_or_ao
+theorem C02_or_or : Exact orOR Spec.sOr := C02_or_ar
 
 /-- `&a | b` = `BitOr::bitor(rhs, self)` (ops.rs:127): the operands are exchanged. -/
-theorem C02_or_ro_partial (K : BKernel) : Exact orRO Spec.sOr := by
+theorem C02_or_ro : Exact orRO Spec.sOr := by
   intro a b ha hb
-  have := C02_or_ar_partial K b a hb ha
-  exact ⟨this.1, by rw [C02_sOr_comm _ _ (sorted_elems K a ha) (sorted_elems K b hb)]; exact this.2⟩
-
-theorem C02_or_forms_agree_partial (K : BKernel) (a b : Bitmap) (ha : a.WF) (hb : b.WF) (fm : Form) :
-    elems (binop .or fm a b) = elems (orRR a b) := by
-  have h0 := (C02_or_rr_partial K a b ha hb).2
-  cases fm
-  · exact (C02_or_oo_partial K a b ha hb).2.trans h0.symm
-  · exact (C02_or_or_partial K a b ha hb).2.trans h0.symm
-  · exact (C02_or_ro_partial K a b ha hb).2.trans h0.symm
-  · rfl
-  · exact (C02_or_ao_partial K a b ha hb).2.trans h0.symm
-  · exact (C02_or_ar_partial K a b ha hb).2.trans h0.symm
+  have := C02_or_ar b a hb ha
+  exact ⟨this.1, by rw [C02_sOr_comm _ _ (sorted_elemsK bKernel a ha) (sorted_elemsK bKernel b hb)]; exact this.2⟩
 
 /-- **C02, all operators and forms at once**: the result is well-formed and is exactly the SPEC operation. -/
-theorem C02_all_forms_partial (K : BKernel) (op : BinOp) (fm : Form) (a b : Bitmap) (ha : a.WF) (hb : b.WF) :
+theorem C02_all_forms (op : BinOp) (fm : Form) (a b : Bitmap) (ha : a.WF) (hb : b.WF) :
     (binop op fm a b).WF ∧ elems (binop op fm a b) =
       (match op with
        | .or => Spec.sOr | .and => Spec.sAnd | .sub => Spec.sSub | .xor => Spec.sXor) (elems a) (elems b) := by
   cases op <;> cases fm
-  · exact C02_or_oo_partial K a b ha hb
-  · exact C02_or_or_partial K a b ha hb
-  · exact C02_or_ro_partial K a b ha hb
-  · exact C02_or_rr_partial K a b ha hb
-  · exact C02_or_ao_partial K a b ha hb
-  · exact C02_or_ar_partial K a b ha hb
-  · exact C02_and_oo_partial K a b ha hb
-  · exact C02_and_or_partial K a b ha hb
-  · exact C02_and_ro_partial K a b ha hb
-  · exact C02_and_rr_partial K a b ha hb
-  · exact C02_and_ao_partial K a b ha hb
-  · exact C02_and_ar_partial K a b ha hb
-  · exact C02_sub_oo_partial K a b ha hb
-  · exact C02_sub_or_partial K a b ha hb
-  · exact C02_sub_ro_partial K a b ha hb
-  · exact C02_sub_rr_partial K a b ha hb
-  · exact C02_sub_ao_partial K a b ha hb
-  · exact C02_sub_ar_partial K a b ha hb
-  · exact C02_xor_oo_partial K a b ha hb
-  · exact C02_xor_or_partial K a b ha hb
-  · exact C02_xor_ro_partial K a b ha hb
-  · exact C02_xor_rr_partial K a b ha hb
-  · exact C02_xor_ao_partial K a b ha hb
-  · exact C02_xor_ar_partial K a b ha hb
+  · exact C02_or_oo a b ha hb
+  · exact C02_or_or a b ha hb
+  · exact C02_or_ro a b ha hb
+  · exact C02_or_rr a b ha hb
+  · exact C02_or_ao a b ha hb
+  · exact C02_or_ar a b ha hb
+  · exact C02_and_oo a b ha hb
+  · exact C02_and_or a b ha hb
+  · exact C02_and_ro a b ha hb
+  · exact C02_and_rr a b ha hb
+  · exact C02_and_ao a b ha hb
+  · exact C02_and_ar a b ha hb
+  · exact C02_sub_oo a b ha hb
+  · exact C02_sub_or a b ha hb
+  · exact C02_sub_ro a b ha hb
+  · exact C02_sub_rr a b ha hb
+  · exact C02_sub_ao a b ha hb
+  · exact C02_sub_ar a b ha hb
+  · exact C02_xor_oo a b ha hb
+  · exact C02_xor_or a b ha hb
+  · exact C02_xor_ro a b ha hb
+  · exact C02_xor_rr a b ha hb
+  · exact C02_xor_ao a b ha hb
+  · exact C02_xor_ar a b ha hb
+
+/-- **All forms of one operator return STRUCTURALLY EQUAL values** (not merely the same elements): every
+    form's result is well-formed with the same element list (`C02_all_forms`), and a well-formed value is
+    determined by its element list (`Bitmap.canonical`, the canonical-form theorem of C04). -/
+theorem C02_forms_agree (op : BinOp) (fm fm' : Form) (a b : Bitmap) (ha : a.WF) (hb : b.WF) :
+    binop op fm a b = binop op fm' a b :=
+  have h := C02_all_forms op fm a b ha hb
+  have h' := C02_all_forms op fm' a b ha hb
+  Bitmap.canonical _ _ h.1 h'.1 (h.2.trans h'.2.symm)
+
+/-- per operator, against the `&a op &b` form -/
+theorem C02_or_forms_agree (a b : Bitmap) (ha : a.WF) (hb : b.WF) (fm : Form) :
+    binop .or fm a b = orRR a b := C02_forms_agree .or fm .rr a b ha hb
+theorem C02_and_forms_agree (a b : Bitmap) (ha : a.WF) (hb : b.WF) (fm : Form) :
+    binop .and fm a b = andRR a b := C02_forms_agree .and fm .rr a b ha hb
+theorem C02_sub_forms_agree (a b : Bitmap) (ha : a.WF) (hb : b.WF) (fm : Form) :
+    binop .sub fm a b = subRR a b := C02_forms_agree .sub fm .rr a b ha hb
+theorem C02_xor_forms_agree (a b : Bitmap) (ha : a.WF) (hb : b.WF) (fm : Form) :
+    binop .xor fm a b = xorRR a b := C02_forms_agree .xor fm .rr a b ha hb
 
 /-- the wrappers of ops.rs delegate: `a | b` is `a |= b`, `a | &b` is `a |= &b`, `&a | b` is `b |= &a`;
     likewise for `&`; every owned/borrowed form of `-` is `a -= &b` except `&a - &b` / `&a - b`. -/
